@@ -1,40 +1,42 @@
 //! C12 - evaluation of the OpenType variation model: the decoding and scalar kernels that the
-//! instancer is assembled from. NOT the instancer (`variations::instance`), IUP, phantom points
-//! or CFF2 blends: those sit behind BTreeMap / Vec pipelines CBMC does not finish on.
+//! instancer is assembled from. NOT the instancer (`variations::instance`), the accumulation of
+//! deltas over a glyph's points, phantom points, HVAR/MVAR wrappers or the item variation store
+//! evaluation: those sit behind BTreeMap / Vec pipelines CBMC does not finish on.
 //!
-//! * the per-axis region scalar (`calculate_scalar`, through hook H7) against the definition in
-//!   "OpenType Font Variations Common Table Formats / Algorithm for interpolation of instance
-//!   values";
-//! * `ItemVariationStore::adjustment` (HVAR/MVAR/VVAR deltas) parsed from bytes: at the default
-//!   instance every region with a non-zero peak contributes nothing; at a region's peak the
-//!   adjustment is the plain sum of the row's deltas, for every delta-row encoding (word count,
-//!   LONG_WORDS) and region index;
-//! * `DeltaSetIndexMap::entry` for both formats and every entryFormat byte;
-//! * packed point numbers and packed deltas of a gvar tuple variation, parsed from bytes through
-//!   `TupleVariationStore::<Gvar>::read_dep` + `variation_data`.
+//! * the per-axis region scalar (`calculate_scalar`, hook H7) against the definition in "OpenType
+//!   Font Variations Common Table Formats / Algorithm for interpolation of instance values";
+//! * the inferred delta of an un-referenced point between its referenced neighbours (`do_infer`,
+//!   hook H7) against the gvar chapter's rule;
+//! * `DeltaSetIndexMap::entry` for both formats and every entryFormat byte (hook H7);
+//! * the packed point number and packed delta readers (hook H7).
 //!
-//! @funcs variable_fonts::calculate_scalar, variable_fonts::scalar, VariationRegion::scalar, ItemVariationStore::{read, adjustment, variation_region}, VariationRegionList::read, ItemVariationData::{read, delta_set}, DeltaSetT::{delta_set_impl, row_length, word_delta_count, long_deltas}, DeltaSet::iter, calculate_row_length, DeltaSetIndexMap::{read, entry, entry_size_impl}, TupleVariationStore::<Gvar>::{read_dep, variation_data}, TupleVariationHeader::{read_dep, variation_data, read_point_numbers}, read_packed_point_numbers, read_count, packed_deltas::read, GvarVariationData::iter, FvarTable::owned_tuple
-//! @out variations::instance, glyf/variation.rs (delta accumulation over points, IUP), phantom points, HVAR/MVAR table wrappers, CFF2 blend, cvar, shared point numbers, more than one axis in the store harness, more than 2 regions, point runs longer than 2, delta runs longer than 4, fractional scalars inside ItemVariationStore::adjustment (the instance is the default or a peak)
+//! @funcs variable_fonts::calculate_scalar, glyf::variation::do_infer, DeltaSetIndexMap::{read, entry, entry_size_impl}, variable_fonts::read_packed_point_numbers, variable_fonts::read_count, variable_fonts::packed_deltas::read, PointNumbers::iter
+//! @out variations::instance, glyf/variation.rs apart from do_infer (delta accumulation over points, contour walking of IUP, phantom points), ItemVariationStore::adjustment and the HVAR/MVAR wrappers (out of memory at 14 GB on a store parsed from bytes), TupleVariationStore/TupleVariationHeader parsing (out of memory), CFF2 blend (decided under C18), cvar, shared point numbers, point runs longer than 3, more than two delta runs
 
 use crate::util::*;
 use allsorts::binary::read::ReadScope;
-use allsorts::tables::variable_fonts::fvar::FvarTable;
 use allsorts::tables::variable_fonts::{
-    verif_calculate_scalar, verif_delta_set_index_map_entry, DeltaSetIndexMapEntry, Gvar, ItemVariationStore,
-    TupleVariationStore,
+    verif_calculate_scalar, verif_delta_set_index_map_entry, verif_read_packed_deltas,
+    verif_read_packed_point_numbers,
 };
+use allsorts::tables::glyf::verif_do_infer;
 use allsorts::tables::F2Dot14;
 
 // ---------------------------------------------------------------------------
 // region scalar
 // ---------------------------------------------------------------------------
 
-/// Case analysis of the per-axis scalar: ignored axis, outside the region, at the peak, strictly
-/// between start and peak / peak and end.
-// @bound every 2.14 instance, start, peak, end with start <= peak <= end (well-formed region)
-#[kani::proof]
-fn c12_region_scalar_cases() {
-    let (i, s, p, e): (i16, i16, i16, i16) = (kani::any(), kani::any(), kani::any(), kani::any());
+/// A symbolic 2.14 raw value on a grid: every i16 (`grid` = 1) or every multiple of `grid`.
+fn any_raw(grid: i16) -> i16 {
+    let v: i16 = kani::any();
+    kani::assume(v % grid == 0);
+    v
+}
+
+/// Case analysis of the per-axis scalar: ignored axis, outside the region, at the peak, and the
+/// specification's quotient strictly between start and peak / peak and end.
+fn region_scalar_cases(grid: i16) {
+    let (i, s, p, e) = (any_raw(grid), any_raw(grid), any_raw(grid), any_raw(grid));
     kani::assume(s <= p && p <= e);
     let v = verif_calculate_scalar(
         F2Dot14::from_raw(i),
@@ -48,18 +50,39 @@ fn c12_region_scalar_cases() {
         assert!(v == 0.0, "outside the region");
     } else if i == p {
         assert!(v == 1.0, "at the peak");
+    } else if i < p {
+        // the specification's formula, evaluated as written there on the 2.14 values
+        let want = (f2(i) - f2(s)) / (f2(p) - f2(s));
+        assert!(v == want, "rising side: (instance - start) / (peak - start)");
     } else {
-        // strictly inside, not at the peak: a proper fraction of the distance to the peak
-        assert!(v >= 0.0 && v < 1.0, "scalar in [0,1)");
-        assert!((v == 0.0) == (i == s && i < p || i == e && i > p), "zero exactly at the region's edge");
+        let want = (f2(e) - f2(i)) / (f2(e) - f2(p));
+        assert!(v == want, "falling side: (end - instance) / (end - peak)");
     }
     kani::cover!(p != 0 && i > s && i < p, "rising side");
     kani::cover!(p != 0 && i > p && i < e, "falling side");
 }
 
+// @bound every 2.14 instance, start, peak, end on the grid of multiples of 1/64 (raw multiples of 256) with start <= peak <= end
+#[kani::proof]
+fn c12_region_scalar_cases() {
+    region_scalar_cases(256);
+}
+
+// @tier thorough
+// @bound every 2.14 instance, start, peak, end (all 65536 raw values each) with start <= peak <= end
+#[kani::proof]
+fn c12_region_scalar_cases_full() {
+    region_scalar_cases(1);
+}
+
+fn f2(raw: i16) -> f32 {
+    raw as f32 / 16384.0
+}
+
 /// The value: (instance - start) / (peak - start) below the peak and (end - instance) / (end - peak)
 /// above it, correctly rounded to f32 (checked as: scalar * denominator is within half an f32 ulp
 /// of the numerator, in exact f64 arithmetic).
+// @tier thorough
 // @bound every 2.14 instance, start, peak, end with start <= instance <= end, start <= peak <= end, peak != 0
 #[kani::proof]
 fn c12_region_scalar_value() {
@@ -83,100 +106,6 @@ fn c12_region_scalar_value() {
     let tol = den as f64 / 33554432.0;
     assert!(err <= tol && -err <= tol, "scalar is the correctly rounded quotient");
     kani::cover!(num == 1 && den == 3);
-}
-
-// ---------------------------------------------------------------------------
-// item variation store
-// ---------------------------------------------------------------------------
-
-fn one_axis_fvar() -> [u8; 36] {
-    let mut buf = [0u8; 36];
-    put16(&mut buf, 0, 1);
-    put16(&mut buf, 4, 16);
-    put16(&mut buf, 6, 2);
-    put16(&mut buf, 8, 1);
-    put16(&mut buf, 10, 20);
-    put32(&mut buf, 16, 0x7767_6874);
-    put32(&mut buf, 20, (100u32) << 16);
-    put32(&mut buf, 24, (400u32) << 16);
-    put32(&mut buf, 28, (900u32) << 16);
-    put16(&mut buf, 34, 256);
-    buf
-}
-
-/// One axis, two regions, one ItemVariationData with one row of two deltas whose encoding
-/// (wordDeltaCount 0..2, LONG_WORDS) and region indexes are symbolic. At the default instance (0)
-/// regions with a non-zero peak that do not straddle zero contribute nothing; at a common peak
-/// both regions contribute their whole delta.
-// @bound 1 axis; 2 regions with symbolic start/peak/end (start <= peak <= end, same sign, non-zero peak, common peak); 1 item variation data with 1 row of 2 deltas; wordDeltaCount in 0..2, LONG_WORDS symbolic; region indexes symbolic in 0..1; every delta value; instance = default (0) or the common peak
-#[kani::proof]
-#[kani::unwind(8)]
-fn c12_item_variation_store_adjustment() {
-    let mut buf: [u8; 46] = kani::any();
-    put16(&mut buf, 0, 1);
-    put32(&mut buf, 2, 12);
-    put16(&mut buf, 6, 1);
-    put32(&mut buf, 8, 28);
-    put16(&mut buf, 12, 1); // axisCount
-    put16(&mut buf, 14, 2); // regionCount
-    let peak: i16 = kani::any();
-    kani::assume(peak != 0);
-    let mut r = 0;
-    while r < 2 {
-        let at = 16 + 6 * r;
-        put16(&mut buf, at + 2, peak as u16);
-        let s = be16(&buf, at) as i16;
-        let e = be16(&buf, at + 4) as i16;
-        kani::assume(s <= peak && peak <= e);
-        kani::assume((s >= 0 && e >= 0) || (s <= 0 && e <= 0)); // a region does not straddle zero
-        r += 1;
-    }
-    put16(&mut buf, 28, 1); // itemCount
-    let words: u16 = kani::any();
-    let long: bool = kani::any();
-    kani::assume(words <= 2);
-    put16(&mut buf, 30, words | if long { 0x8000 } else { 0 });
-    put16(&mut buf, 32, 2); // regionIndexCount
-    let (r0, r1) = (be16(&buf, 34), be16(&buf, 36));
-    kani::assume(r0 < 2 && r1 < 2);
-    let row = 38;
-    // reference decoding of the row: `words` word deltas then (2 - words) short deltas
-    let (wsize, ssize) = if long { (4usize, 2usize) } else { (2, 1) };
-    let mut d = [0i64; 2];
-    let mut at = row;
-    let mut k = 0;
-    while k < 2 {
-        let size = if (k as u16) < words { wsize } else { ssize };
-        d[k] = match size {
-            1 => buf[at] as i8 as i64,
-            2 => be16(&buf, at) as i16 as i64,
-            _ => be32(&buf, at) as i32 as i64,
-        };
-        at += size;
-        k += 1;
-    }
-    let store = ReadScope::new(&buf).read::<ItemVariationStore<'_>>().unwrap();
-    let fbuf = one_axis_fvar();
-    let fvar = ReadScope::new(&fbuf).read::<FvarTable<'_>>().unwrap();
-    let entry = DeltaSetIndexMapEntry { outer_index: 0, inner_index: 0 };
-
-    let at_default = fvar.owned_tuple(&[F2Dot14::from_raw(0)]).unwrap();
-    let a0 = store.adjustment(entry, &at_default).unwrap();
-    assert!(a0 == 0.0, "no adjustment at the default instance");
-
-    let at_peak = fvar.owned_tuple(&[F2Dot14::from_raw(peak)]).unwrap();
-    let a1 = store.adjustment(entry, &at_peak).unwrap();
-    let want = (0.0f32 + d[0] as f32) + d[1] as f32;
-    assert!(a1 == want, "at the peak the adjustment is the sum of the row's deltas");
-
-    // rows and data sets that do not exist are errors, not other rows
-    assert!(store.adjustment(DeltaSetIndexMapEntry { outer_index: 0, inner_index: 1 }, &at_peak).is_err());
-    assert!(store.adjustment(DeltaSetIndexMapEntry { outer_index: 1, inner_index: 0 }, &at_peak).is_err());
-    kani::cover!(long && words == 1 && d[0] > 70000 && d[1] < -300, "long word + short delta");
-    kani::cover!(!long && words == 0 && d[0] == -128, "two int8 deltas");
-    std::mem::forget(store);
-    std::mem::forget(at_default);
-    std::mem::forget(at_peak);
 }
 
 // ---------------------------------------------------------------------------
@@ -229,87 +158,160 @@ fn c12_delta_set_index_map_format1() {
 }
 
 // ---------------------------------------------------------------------------
-// packed point numbers and packed deltas (gvar tuple variation data)
+// packed point numbers and packed deltas (through hook H7 on the private readers)
 // ---------------------------------------------------------------------------
+// Going through TupleVariationStore::<Gvar>::read_dep + variation_data ran CBMC out of 14 GB
+// (Vec<TupleVariationHeader>, Cow<PointNumbers>, split_off); ItemVariationStore::adjustment on a
+// store parsed from bytes likewise (one axis, two regions, one row). The readers themselves are
+// reached through the hook.
 
-/// One tuple variation with private point numbers: 2 points in one run (byte or word encoded),
-/// then 4 packed deltas (x0 x1 y0 y1) in one run (zero / byte / word encoded).
-// @bound 1 axis, 1 tuple variation header with embedded peak and private point numbers; point count 2 in one run, byte or word point numbers with every value (sum below 65536); 4 deltas in one run: all-zero, int8 or int16 with every value
-#[kani::proof]
-#[kani::unwind(8)]
-fn c12_packed_points_and_deltas() {
-    let mut buf: [u8; 25] = kani::any();
-    put16(&mut buf, 0, 1); // one tuple variation, no shared point numbers
-    put16(&mut buf, 2, 10); // offset to the serialized data
-    put16(&mut buf, 4, 15); // variationDataSize
-    put16(&mut buf, 6, 0xA000); // embedded peak tuple + private point numbers
-    let d = 10;
-    buf[d] = 2; // point count
-    let pwords: bool = kani::any();
-    buf[d + 1] = if pwords { 0x80 | 1 } else { 1 }; // run of 2
-    let (p0, p1, after) = if pwords {
-        (be16(&buf, d + 2) as u32, be16(&buf, d + 4) as u32, d + 6)
+/// Packed point numbers: count byte(s), then a run of byte or word differences; numbers are the
+/// running sums. The shape (count encoding, run kind) is fixed per harness, the values are symbolic.
+fn packed_point_numbers(two_byte_count: bool, words: bool) {
+    let mut buf: [u8; 7] = kani::any();
+    let mut at;
+    if two_byte_count {
+        buf[0] = 0x80;
+        buf[1] = 2;
+        at = 2;
     } else {
-        (buf[d + 2] as u32, buf[d + 3] as u32, d + 4)
-    };
-    kani::assume(p0 + p1 <= 0xFFFF);
-    let dzero: bool = kani::any();
-    let dwords: bool = kani::any();
-    kani::assume(!(dzero && dwords));
-    buf[after] = 3 | if dzero { 0x80 } else { 0 } | if dwords { 0x40 } else { 0 };
-    let mut want = [0i16; 4];
-    let mut k = 0;
-    while k < 4 {
-        want[k] = if dzero {
-            0
-        } else if dwords {
-            be16(&buf, after + 1 + 2 * k) as i16
-        } else {
-            buf[after + 1 + k] as i8 as i16
-        };
-        k += 1;
+        buf[0] = 2;
+        at = 1;
     }
-    let scope = ReadScope::new(&buf);
-    let store = scope.read_dep::<TupleVariationStore<'_, Gvar>>((1, 6, scope)).unwrap();
-    let data = store.variation_data(0).unwrap();
-    assert!(data.len() == 2);
-    let mut it = data.iter();
-    let a = it.next().unwrap();
-    let b = it.next().unwrap();
-    assert!(it.next().is_none());
-    assert!(a.0 == p0 && b.0 == p0 + p1, "point numbers are cumulative");
-    assert!(a.1 == (want[0], want[2]) && b.1 == (want[1], want[3]), "x deltas then y deltas");
-    assert!(store.variation_data(1).is_err());
-    kani::cover!(pwords && dwords && b.0 > 40000 && a.1 .0 < -2000);
-    kani::cover!(!pwords && dzero);
-    std::mem::forget(it);
-    std::mem::forget(data);
-    std::mem::forget(store);
+    buf[at] = 1 | if words { 0x80 } else { 0 }; // run of 2
+    at += 1;
+    let (d0, d1) = if words {
+        (be16(&buf, at) as u32, be16(&buf, at + 2) as u32)
+    } else {
+        (buf[at] as u32, buf[at + 1] as u32)
+    };
+    kani::assume(d0 + d1 <= 0xFFFF);
+    let used = at + if words { 4 } else { 2 };
+    let (got, consumed) = verif_read_packed_point_numbers(&buf, 7).unwrap();
+    assert!(got.len() == 2 && consumed == used);
+    assert!(got[0] == d0 && got[1] == d0 + d1, "point numbers are cumulative");
+    kani::cover!(got[1] > 300 || !words);
+    std::mem::forget(got);
 }
 
-/// A first count byte of 0 means "all points": numbers 0..numPoints with the deltas in order.
-// @bound 1 tuple variation, point count byte 0, numPoints 2 (the store is read with num_points = 2), 4 int8 deltas with every value
+// @bound point count 2 in a one-byte count, one run of 2 byte differences, every value
+#[kani::proof]
+#[kani::unwind(8)]
+fn c12_packed_point_numbers_bytes() {
+    packed_point_numbers(false, false);
+}
+
+// @bound point count 2 in a two-byte count (high bit set), one run of 2 word differences, every value with a sum below 65536
+#[kani::proof]
+#[kani::unwind(8)]
+fn c12_packed_point_numbers_words() {
+    packed_point_numbers(true, true);
+}
+
+/// A first count byte of 0: all `num_points` points, in order.
+// @bound count byte 0, num_points 3
 #[kani::proof]
 #[kani::unwind(8)]
 fn c12_packed_all_points() {
-    let mut buf: [u8; 16] = kani::any();
-    put16(&mut buf, 0, 1);
-    put16(&mut buf, 2, 10);
-    put16(&mut buf, 4, 6);
-    put16(&mut buf, 6, 0xA000);
-    buf[10] = 0; // all points
-    buf[11] = 3; // 4 int8 deltas
-    let scope = ReadScope::new(&buf);
-    let store = scope.read_dep::<TupleVariationStore<'_, Gvar>>((1, 2, scope)).unwrap();
-    let data = store.variation_data(0).unwrap();
-    let mut it = data.iter();
-    let a = it.next().unwrap();
-    let b = it.next().unwrap();
-    assert!(a.0 == 0 && b.0 == 1);
-    assert!(a.1 == (buf[12] as i8 as i16, buf[14] as i8 as i16));
-    assert!(b.1 == (buf[13] as i8 as i16, buf[15] as i8 as i16));
-    kani::cover!(a.1 .0 == -5 && b.1 .1 == 7);
-    std::mem::forget(it);
-    std::mem::forget(data);
-    std::mem::forget(store);
+    let mut buf: [u8; 3] = kani::any();
+    buf[0] = 0;
+    let (got, consumed) = verif_read_packed_point_numbers(&buf, 3).unwrap();
+    assert!(consumed == 1 && got.len() == 3);
+    assert!(got[0] == 0 && got[1] == 1 && got[2] == 2);
+    kani::cover!(true);
+    std::mem::forget(got);
+}
+
+/// Packed deltas: runs of (count - 1 | flags) followed by nothing (DELTAS_ARE_ZERO), int16 or
+/// int8 values. 3 deltas from two runs (2 + 1) whose kinds are fixed per harness (0 = zero run,
+/// 1 = int8, 2 = int16); the values are symbolic.
+fn packed_deltas(kind0: u8, kind1: u8) {
+    let mut buf: [u8; 8] = kani::any();
+    let mut want = [0i16; 3];
+    let mut at = 0;
+    let mut idx = 0;
+    let mut run = 0;
+    while run < 2 {
+        let count = 2 - run; // 2 then 1
+        let kind = if run == 0 { kind0 } else { kind1 };
+        buf[at] = (count as u8 - 1) | if kind == 0 { 0x80 } else { 0 } | if kind == 2 { 0x40 } else { 0 };
+        at += 1;
+        let mut k = 0;
+        while k < count {
+            want[idx] = match kind {
+                0 => 0,
+                1 => buf[at] as i8 as i16,
+                _ => be16(&buf, at) as i16,
+            };
+            at += kind as usize;
+            idx += 1;
+            k += 1;
+        }
+        run += 1;
+    }
+    let (got, consumed) = verif_read_packed_deltas(&buf, 3).unwrap();
+    assert!(got.len() == 3 && consumed == at);
+    assert!(got[0] == want[0] && got[1] == want[1] && got[2] == want[2], "deltas in stream order");
+    kani::cover!(kind0 == 0 || want[0] < 0, "negative delta");
+    std::mem::forget(got);
+}
+
+// @bound 3 deltas: a run of 2 int16 values then a run of 1 int8 value, every value
+#[kani::proof]
+#[kani::unwind(8)]
+fn c12_packed_deltas_words_then_bytes() {
+    packed_deltas(2, 1);
+}
+
+// @bound 3 deltas: a run of 2 int8 values then an all-zero run of 1, every value
+#[kani::proof]
+#[kani::unwind(8)]
+fn c12_packed_deltas_bytes_then_zero() {
+    packed_deltas(1, 0);
+}
+
+// ---------------------------------------------------------------------------
+// inferred deltas (interpolation of un-referenced points, one coordinate)
+// ---------------------------------------------------------------------------
+
+/// gvar "Inferred deltas for un-referenced point numbers": equal neighbour coordinates -> the
+/// common delta or zero; target outside the neighbours' span -> the delta of the nearer neighbour;
+/// inside -> linear interpolation (the specification's formula evaluated as written there).
+fn inferred_delta_cases(bits: u32) {
+    // a symbolic signed integer of `bits` bits
+    let any = || -> i16 {
+        let v: i16 = kani::any();
+        v >> (16 - bits)
+    };
+    let (pc, tc, nc, pd, nd) = (any(), any(), any(), any(), any());
+    let v = verif_do_infer(pc, tc, nc, pd, nd);
+    let (lo_c, hi_c) = if pc < nc { (pc, nc) } else { (nc, pc) };
+    // delta of the neighbour with the lower / higher coordinate
+    let (lo_d, hi_d) = if pc < nc { (pd, nd) } else { (nd, pd) };
+    if pc == nc {
+        assert!(v == if pd == nd { pd as f32 } else { 0.0 }, "coinciding neighbours");
+    } else if tc <= lo_c {
+        assert!(v == lo_d as f32, "target below both neighbours takes the lower neighbour's delta");
+    } else if tc >= hi_c {
+        assert!(v == hi_d as f32, "target above both neighbours takes the upper neighbour's delta");
+    } else {
+        let proportion = (tc as f32 - pc as f32) / (nc as f32 - pc as f32);
+        let want = (1.0 - proportion) * pd as f32 + proportion * nd as f32;
+        assert!(v == want, "interpolated delta");
+    }
+    kani::cover!(pc != nc && tc > lo_c && tc < hi_c && pd != nd, "interpolated");
+    kani::cover!(pc > nc && tc <= nc, "below, neighbours in descending order");
+}
+
+// @bound every coordinate of the previous, target and next point and every delta of the two neighbours in -16..15
+#[kani::proof]
+fn c12_inferred_delta_cases() {
+    inferred_delta_cases(5);
+}
+
+// @tier thorough
+// @bound every coordinate of the previous, target and next point and every delta of the two neighbours in -128..127
+#[kani::proof]
+fn c12_inferred_delta_cases_wide() {
+    inferred_delta_cases(8);
 }
